@@ -49,6 +49,8 @@ def gen_case(rng):
     k = rng.randint(0, 4)
     case["calls"] = [call, {"n": m, "dur": [rng.choice([0.0, 0.01]) for _ in range(m)]},
                      {"n": k, "dur": [0.0] * k, "phantom": True}]
+    # every stall probe lasts 30.5 simulated seconds, sleeps add up: budget the virtual clock accordingly
+    case["max_time"] = 2 * sum(call["dur"]) + 200.0 + sum(35.0 if o[0] == "stall" else (o[1] if o[0] == "sleep" else 0) for o in ops)
     case["strategy"] = ds.draw_strategy(rng)
     # the promptness oracle is a bound on simulated time: the "slow node" fault (clock jumping past
     # runnable threads) would stall the very threads whose promptness is judged
